@@ -215,13 +215,17 @@ fn parse_variable_definition(
     let var_type = parse_type(pairs.next().unwrap(), pc)?;
 
     // the directives come after the default value, or (not in the specification) before it
-    let mut directives = parse_opt_directives(&mut pairs, pc)?;
+    let mut directives = parse_opt_const_directives(&mut pairs, pc)?;
     let default_value = parse_if_rule(&mut pairs, Rule::default_value, |pair| {
         parse_default_value(pair, pc)
     })?;
     if directives.is_empty() {
-        directives = parse_opt_directives(&mut pairs, pc)?;
+        directives = parse_opt_const_directives(&mut pairs, pc)?;
     }
+    let directives = directives
+        .into_iter()
+        .map(|directive| directive.map(ConstDirective::into_directive))
+        .collect();
 
     debug_assert_eq!(pairs.next(), None);
 
